@@ -39,19 +39,42 @@ func simRand64() uint64 {
 	return hi ^ lo
 }
 
+// Separate streams for select shuffles and for timer ties: code that runs only once per
+// process (lazy initialisation) creates maps, i.e. draws from the rand() stream; it must not
+// shift the choices that decide the schedule of the run.
+var simSelState uint64
+var simTimerState uint64
+
+//go:nosplit
+func simStep(st *uint64) uint64 {
+	*st += 0xa0761d6478bd642f
+	hi, lo := math.Mul64(*st, *st^0xe7037ed1a0b428db)
+	return hi ^ lo
+}
+
 //go:nosplit
 func simCheaprandn(n uint32) uint32 {
 	if simRandOn {
-		return uint32((uint64(uint32(simRand64())) * uint64(n)) >> 32)
+		return uint32((uint64(uint32(simStep(&simSelState))) * uint64(n)) >> 32)
 	}
 	return cheaprandn(n)
 }
 
-// simRandSeed (re)seeds the stream; seed 0 switches it off.
+//go:nosplit
+func simTimerRand() uint32 {
+	if simRandOn {
+		return uint32(simStep(&simTimerState)) >> 1
+	}
+	return cheaprand()
+}
+
+// simRandSeed (re)seeds the streams; seed 0 switches them off.
 //
 //go:linkname simRandSeed
 func simRandSeed(seed uint64) {
 	simRandState = seed
+	simSelState = seed ^ 0x9e3779b97f4a7c15
+	simTimerState = seed ^ 0xc2b2ae3d27d4eb4f
 	simRandOn = seed != 0
 }
 '''
@@ -68,7 +91,7 @@ open(os.path.join(outdir, "select.go"), "w").write(s2)
 # ---- time.go: order of fake timers that fire at the same instant
 p3 = os.path.join(goroot, "src/runtime/time.go")
 s3 = open(p3).read()
-s3 = sub(s3, "\t\t\tt.rand = cheaprand()\n", "\t\t\tt.rand = simCheaprandn(1 << 31) // VERIF\n", "time.go")
+s3 = sub(s3, "\t\t\tt.rand = cheaprand()\n", "\t\t\tt.rand = simTimerRand() // VERIF\n", "time.go")
 open(os.path.join(outdir, "time.go"), "w").write(s3)
 
 # ---- proc.go: no time-slice preemption by sysmon while a simulated run is in progress
@@ -91,6 +114,16 @@ s5 = open(p5).read()
 s5 = sub(s5, "\twaitReasonSynctestSelect:        true,\n}", "\twaitReasonSynctestSelect:        true,\n\twaitReasonSyncMutexLock:         true, // VERIF\n\twaitReasonSyncRWMutexRLock:      true, // VERIF\n\twaitReasonSyncRWMutexLock:       true, // VERIF\n}", "runtime2.go")
 open(os.path.join(outdir, "runtime2.go"), "w").write(s5)
 
-json.dump({"Replace": {p: os.path.join(outdir, "rand.go"), p2: os.path.join(outdir, "select.go"), p3: os.path.join(outdir, "time.go"), p4: os.path.join(outdir, "proc.go"), p5: os.path.join(outdir, "runtime2.go")}},
+# ---- sema.go: sync.Mutex decides on starvation mode from the REAL monotonic clock (a waiter
+# that waited more than 1 ms). With mutex waits spanning driver steps (runtime2.go above) that
+# made the hand-off order depend on wall-clock time. The clock sync.Mutex sees stands still
+# during a simulated run: the mutex stays in normal mode, hand-off order is a function of the
+# (seeded) schedule only.
+p6 = os.path.join(goroot, "src/runtime/sema.go")
+s6 = open(p6).read()
+s6 = sub(s6, "func internal_sync_nanotime() int64 {\n\treturn nanotime()\n}", "func internal_sync_nanotime() int64 {\n\tif simRandOn { // VERIF\n\t\treturn 0\n\t}\n\treturn nanotime()\n}", "sema.go")
+open(os.path.join(outdir, "sema.go"), "w").write(s6)
+
+json.dump({"Replace": {p: os.path.join(outdir, "rand.go"), p2: os.path.join(outdir, "select.go"), p3: os.path.join(outdir, "time.go"), p4: os.path.join(outdir, "proc.go"), p5: os.path.join(outdir, "runtime2.go"), p6: os.path.join(outdir, "sema.go")}},
           open(os.path.join(outdir, "overlay.json"), "w"), indent=1)
 print(os.path.join(outdir, "overlay.json"))
